@@ -254,7 +254,12 @@ class Ctx:
 
     def require_coverage(self, res, actions, label=""):
         """Vacuity guard: every listed action must have been taken."""
-        missing = [a for a in actions if res.coverage.get(a, (0, 0))[1] == 0]
+        def taken(a):
+            # TLC names an action after the innermost operator whose body it is:
+            # `DoX == \E p : X(p)` is reported as X, `DoX == \E p : G /\ X(p)` as DoX.
+            alts = [a, a[2:] if a.startswith("Do") else "Do" + a]
+            return any(res.coverage.get(x, (0, 0))[1] > 0 for x in alts)
+        missing = [a for a in actions if not taken(a)]
         if missing:
             raise Broken("vacuous model run %s: actions never taken: %s" % (label, missing))
 
